@@ -517,7 +517,7 @@ type C06StoreCase struct {
 	Short  bool  `json:"short"`   // the failing write accepts part of its input
 	// Recovers: the writer fails once (at FailAt) and accepts everything afterwards
 	Recovers bool `json:"recovers,omitempty"`
-	Poison int   `json:"poison"`  // which encoder-side failure
+	Poison   int  `json:"poison"` // which encoder-side failure
 }
 
 type failWriter struct {
